@@ -28,12 +28,14 @@ func init() {
 		MaxSimTime: 30 * time.Minute,
 		Rule: "per run the tape draws id source (cookie/header/query), storage (SimStorage / in-repo memory storage), idle and absolute timeouts, mode (sequential with shared ids and store-wide operations, or concurrent clients on disjoint sessions), " +
 			"2-4 clients x up to 8 requests; each request presents the client's current id, a stale id (destroyed / regenerated / reset / expired), a forged id, another client's id (sequential mode) or none, and runs a generated program " +
-			"(set/delete keys, Destroy, Reset, Regenerate, SetIdleTimeout) through the middleware or the store API (Get+Save/Release, GetByID, Delete, Reset); the clock advances around the timeouts. " +
+			"(set/delete keys, Destroy, Reset, Regenerate, SetIdleTimeout, Save in the middle of a request, values gob cannot encode) through the middleware or the store API (Get+Save/Release, also twice per request, GetByID, Delete, Reset); the clock advances around the timeouts; a fault stratum (25 %) injects storage Get / Delete errors; every key handed to Storage.Set is checked to stay unchanged (zero-copy views of request buffers). " +
 			"distinct = hash of (configuration, per request (kind of presented id, expected live/fresh, program)); non-trivial = at least one stale or forged id was presented and one session outlived a request",
 		Assumptions: []string{
 			"probes within 2 s of an idle deadline accept either outcome (the storage clock has 1 s granularity); absolute deadlines are exact",
 			"session ids come from a counter-based KeyGenerator so that 'server-generated during this request' can be decided exactly; the default UUID generator is not exercised",
 			"in concurrent mode each session is used by one client at a time (concurrent writers to one session are last-writer-wins by design and not modelled)",
+			"after an injected storage error that the operation reported (or that made the middleware panic) the run stops following that history; only 'never run under the presented id' is required of the failed request",
+			"the storage under test always receives a private copy of the key (KeyGuard): a key that changes after Storage.Set is reported by its own oracle, its consequences (which depend on Go's per-map hash seed) are not played out",
 		},
 		Components: map[string]string{
 			"session middleware, store, data, gob codec": "real (instrumented)",
